@@ -231,6 +231,44 @@ BASE_ASSUME = ["sequentially consistent interleavings of the atomic operations (
                "TLC, SANY, gcc -fsanitize=thread instrumentation and /verif/rt are trusted"]
 
 
+def trace_phase(run, exe, prop, tier, e):
+    """code -> spec (DESIGN 3.4): random-schedule executions of the real code are logged (thread, kind of operation, mutex word,
+    cv word per step) and validated by TLC against MuTrace.tla; Mu.tla's invariants are evaluated on every matched state."""
+    import muconfigs, subprocess, concurrent.futures as cf
+    progs = muconfigs.RANDOM.get(prop, [])
+    if not progs:
+        return
+    shutil.copy(os.path.join(SPEC, "MuTrace.tla"), os.path.join(MC, "MuTrace.tla"))
+    nruns = 120 if tier == "quick" else 3000
+    dbg, cvfix = detect_dbgfixed(exe), detect_cvfix(exe)
+
+    def one(i):
+        conf = dict(progs[i]); conf.setdefault("DbgFixed", dbg); conf.setdefault("CvFix", cvfix)
+        tr = os.path.join(WORK, "tlc", "trace_%s_%d.ndjson" % (prop, i))
+        res = run_harness_env(exe, ["random", str(nruns), str(seed() + 50 + i), muconf.init_line(conf), REPLAYS, tr], e)
+        nlines = sum(1 for _ in open(tr))
+        tla, cfg = muconf.write_mc(MC, "trace_%s_%d" % (prop, i), conf, consts(), ["TraceInv"], spec="TraceSpec", export=False, base="MuTrace",
+                                   extra_cfg="CONSTRAINT Progress\nPOSTCONDITION Accepted\n")
+        info = tlc_plain(tla, cfg, workers=1, cwd=MC, env=dict(os.environ, TRACE=tr), timeout=1500)
+        m = re.search(r'<<"matched", (\d+), "of", (\d+)>>', info["out"])
+        matched = int(m.group(1)) if m else 0
+        os.unlink(tr)
+        return i, conf, nlines, matched, info
+    with cf.ThreadPoolExecutor(4) as ex:
+        for i, conf, nlines, matched, info in ex.map(one, range(len(progs))):
+            acc = info["ok"] and matched == nlines
+            run.cov.setdefault("recorded_traces", []).append({"program": i, "threads": len(conf["progs"]), "executions": nruns, "events": nlines, "matched": matched,
+                                                              "accepted": acc, "states": info["distinct"]})
+            if acc:
+                run.add("traces_validated_against_impl", nruns)
+            elif info["violated"]:
+                run.violation("TLC|%s|recorded trace of random program %d" % (info["violated"], i), "-",
+                              "an invariant of Mu.tla fails on a state of a recorded execution of the real code (matched %d of %d events): %s" % (matched, nlines, info["out"][-300:]))
+            else:
+                run.note("DIVERGENCE: recorded executions of random program %d are not behaviours of Mu.tla (longest matched prefix %d of %d events); not a violation by itself" % (i, matched, nlines))
+                run.cov["conformant"] = False
+
+
 def fine_runs(run, exe, prop, tier, e):
     import muconfigs
     nruns = 1500 if tier == "quick" else 40000
@@ -280,6 +318,7 @@ def mu_check(prop, tier, replay, extra_rule="", extra_assume=(), env=None, post=
         run.cov["tours_capped_at"] = cap_tours
         run.cov["exhaustive"] = False
     fine_runs(run, exe, prop, tier, e)
+    trace_phase(run, exe, prop, tier, e)
     if post:
         post(run, exe, results, e)
     run.cov.setdefault("conformant", True)
